@@ -134,11 +134,14 @@ func computeRenames(p *Prog) {
 			}
 			id := identityOf(f)
 			if id.Recv != old.Recv || id.Sig != old.Sig {
-				continue
+				// a method that became a plain function taking its receiver first, or the reverse
+				if (id.Recv == "") == (old.Recv == "") || flatSig(id.Recv, id.Sig) != flatSig(old.Recv, old.Sig) {
+					continue
+				}
 			}
 			// a plain function may have moved to another package of the module (and been exported on the way);
 			// methods stay with their type
-			if id.Pkg != old.Pkg && (old.Recv != "" || !strings.HasPrefix(id.Pkg, ModPath)) {
+			if id.Pkg != old.Pkg && (old.Recv != "" || id.Recv != "" || !strings.HasPrefix(id.Pkg, ModPath)) {
 				continue
 			}
 			cands++
@@ -526,3 +529,69 @@ func computeNewPackages(p *Prog) {
 
 // IsNewModulePackage: a package of the module that the recorded tree does not have.
 func IsNewModulePackage(path string) bool { return newPkgs[path] }
+
+// flatSig: the signature with the receiver (if any) as the first parameter.
+func flatSig(recv, sig string) string {
+	if recv == "" || !strings.HasPrefix(sig, "func(") {
+		return stripParamNames(sig)
+	}
+	rest := sig[len("func("):]
+	// parameter names are part of the type string ("func(user string) bool"): the receiver gets none, so names are
+	// dropped on both sides before comparing
+	if strings.HasPrefix(rest, ")") {
+		return stripParamNames("func(" + recv + rest)
+	}
+	return stripParamNames("func(" + recv + ", " + rest)
+}
+
+// stripParamNames removes parameter and result names from a printed signature, leaving the types.
+func stripParamNames(sig string) string {
+	var b strings.Builder
+	depth := 0
+	tok := ""
+	flush := func(next byte) {
+		// a name is an identifier token followed by a space and a type at tuple depth >= 1
+		b.WriteString(tok)
+		tok = ""
+	}
+	for i := 0; i < len(sig); i++ {
+		ch := sig[i]
+		switch {
+		case ch == '(':
+			flush(ch)
+			depth++
+			b.WriteByte(ch)
+		case ch == ')':
+			flush(ch)
+			depth--
+			b.WriteByte(ch)
+		case ch == ',':
+			flush(ch)
+			b.WriteByte(ch)
+		case ch == ' ':
+			// "name type": drop the name when the token so far is a plain identifier and we are inside a tuple
+			if depth >= 1 && isPlainIdent(tok) && i+1 < len(sig) && sig[i+1] != ' ' && tok != "func" && tok != "chan" && tok != "map" && tok != "interface" && tok != "struct" {
+				tok = ""
+			} else {
+				tok += " "
+			}
+		default:
+			tok += string(ch)
+		}
+	}
+	b.WriteString(tok)
+	return b.String()
+}
+
+func isPlainIdent(s string) bool {
+	if s == "" {
+		return false
+	}
+	for i := 0; i < len(s); i++ {
+		c := s[i]
+		if !(c == '_' || (c >= '0' && c <= '9' && i > 0) || (c >= 'a' && c <= 'z') || (c >= 'A' && c <= 'Z')) {
+			return false
+		}
+	}
+	return true
+}
